@@ -615,6 +615,8 @@ def run(tier, replay=None):
     progs.append(c09_gen.shared_with_family(r))
   for i in range(n_fam // 2):
     progs.append(c09_gen.dotted_table_family(r))
+  for i in range(n_fam // 2):
+    progs.append(c09_gen.dependent_unnest_family(r))
   fixed = [{'text': SUBSCRIPT_PROGRAM, 'pred': 'P', 'tags': ['fixed:subscript']},
            {'text': REST_PROGRAM, 'pred': 'P', 'tags': ['fixed:rest-of']},
            {'text': UNTYPED_REST_PROGRAM, 'pred': 'D2', 'tags': ['fixed:rest-of-untyped'], 'ext': ['T0']}]
@@ -816,7 +818,7 @@ def run(tier, replay=None):
       'instantiation_cases': n_tie,
       'instantiation_mismatches': (bad or [])[:10],
       'programs': n_prog + n_mal + n_fam + n_fam // 2 + len(fixed),
-      'programs_by_kind': {'generated': n_prog, 'malformed': n_mal, 'shared_with_family': n_fam, 'dotted_table_family': n_fam // 2, 'fixed': len(fixed)},
+      'programs_by_kind': {'generated': n_prog, 'malformed': n_mal, 'shared_with_family': n_fam, 'dotted_table_family': n_fam // 2, 'dependent_unnest_family': n_fam // 2, 'fixed': len(fixed)},
       'compile_status': status_count,
       'compiled_ok': n_ok,
       'statements_judged': len(cases),
